@@ -147,6 +147,24 @@ PROPS = {
         "lean_props": ["C08"],
         "streams": [SOL, HIST],
     },
+    "C09": {
+        "claim": {
+            "text": "Per built-in constraint, estimate vs exact check under the engine invariant: proved sound AND complete "
+                    "for Maximum (every capacity resource and the distance limit) in all three regimes of "
+                    "maximumImpl.EstimateIsViolated, and exact for MaximumStops and Attributes (which have no exact "
+                    "check). The temporal estimates (Latest, MaximumWaitStop, MaximumWaitVehicle) and NoMix are NOT "
+                    "modelled (partial): they are decided by the property's own observable on the real code — every "
+                    "move the engine calls executable (best moves and explicitly constructed moves, in random "
+                    "histories on generated JSON models incl. tight windows, wait limits, non-metric and "
+                    "time-dependent matrices) is executed and must succeed; check.SolutionCheck's moves_failed is read too.",
+            "note": TB_COMMON + " The hypothetical-route iterator (solutionStopGenerator) is abstracted to the list of "
+                    "values it walks.",
+            "technique": "Lean 4 proof (estimate/exact equivalence for Maximum, MaximumStops, Attributes) + executable-then-Execute differential on the real code",
+            "design_ref": "DESIGN.md §5 C09",
+        },
+        "lean_props": ["C09", "C01"],
+        "streams": [HIST, {"name": "histw", "corpus": True}],
+    },
     "C10": {
         "claim": {
             "text": "Theorems: combineAscending enumerates exactly the order-preserving placements, once each; generate "
@@ -162,6 +180,27 @@ PROPS = {
         },
         "lean_props": ["C10"],
         "streams": [HIST],
+    },
+    "C16": {
+        "claim": {
+            "text": "Index-arithmetic theorems for every table behind the crashes found (matrix layout incl. vehicles "
+                    "without alternates, per-vehicle duration tables, per-plan-unit tables of Maximum, per-vehicle table "
+                    "of the vehicles-duration objective): every index that can occur is in range for ALL numbers of "
+                    "stops, alternates, copies, vehicles, types and units; the size and index EXPRESSIONS are extracted "
+                    "from the source on every run and the theorems re-instantiated (a reverted repair breaks them). "
+                    "PARTIAL by nature: decoding, validation and the rest of the Go runtime are decided by the crash "
+                    "differential — valid generated inputs, mutated (malformed) JSON and API-built models (shared "
+                    "vehicle types, limits on a subset of types, plain/cancelled/deadline contexts), each built, "
+                    "given a first solution and solved in an isolated child process; a panic or an engine error is a "
+                    "violation. Found and repaired: E7, E11, E12, E13.",
+            "note": TB_COMMON + " A panic inside a goroutine of the library kills the child process; the parent attributes it to the running case.",
+            "technique": "Lean 4 proof (index arithmetic over regenerated size expressions) + crash differential on the real code",
+            "design_ref": "DESIGN.md §5 C16",
+        },
+        "lean_props": ["C16"],
+        "facts": ["FrontFacts"],
+        "streams": [{"name": "crash", "corpus": True, "model": False}, HIST],
+        "also": [],
     },
     "C17": {
         "claim": {
